@@ -622,9 +622,9 @@ def run_code(ctx, tally, rng):
         cj += coord_jobs(6, 7, COORD_SYSTEMS[:6] + COORD_SYSTEMS[11:14], disps=(0, 3, -3, 4, -4))
     groups.append(("T-coords", cj))
     # long corridors: the shortest route is >= 2(H+W) steps (serpentine 7x7 under 4-connectivity, 9x9 / 11x6 under both)
-    groups.append(("T-long", long_jobs(rng, ctx.pick([(7, 7), (9, 9), (11, 6)],
+    groups.append(("T-long", long_jobs(rng, ctx.pick([(7, 7), (9, 9), (11, 6), (11, 11)],
                                                      [(7, 7), (9, 9), (11, 6), (6, 11), (8, 8), (10, 10), (11, 11),
-                                                      (7, 10), (9, 7)]), extra=ctx.pick(0, 3))))
+                                                      (7, 10), (9, 7)]), extra=ctx.pick(1, 3))))
     groups.append(("T-snap", snap_jobs(ctx.pick([(3, 3), (2, 5), (4, 5)],
                                                 [(3, 3), (2, 5), (4, 5), (5, 5), (2, 7), (6, 4)]))))
     process(ctx, tally, groups, "compiled")
